@@ -184,10 +184,10 @@ def run_files(ctx, cases, rng):
 
 
 def run(ctx):
-    n = 1200 if ctx.tier == "quick" else 25000
+    n = ctx.n(1200, 25000)
     stats = histprop.run_history_property(ctx, "C02", gen_case, n, RULE, nontrivial, dist_fn=dist_fn)
     rng = core.Rng(ctx.seed)
-    nf = 300 if ctx.tier == "quick" else 5000
+    nf = ctx.n(300, 5000)
     cases = [(gen_case if i % 2 else gen_case_files)(rng.fork("case%d" % i)) for i in range(nf)]
     done = run_files(ctx, cases, rng)
     stats["distribution"]["through_layer_files"] = done
